@@ -6,10 +6,22 @@ from sx.harness import _arr, _cp
 PROP = 'C16'
 
 
-def alt_table(atm, cells_dense, route):
+class _IdsView:
+    """ATM whose id lists are handed to the constructor as object-dtype arrays (as pandas would)"""
+
+    def __init__(self, atm):
+        import numpy as np
+        self.__dict__.update(atm.__dict__)
+        self.obs_ids = np.array(list(atm.obs_ids), dtype=object)
+        self.samp_ids = np.array(list(atm.samp_ids), dtype=object)
+
+
+def alt_table(atm, cells_dense, route, object_ids=False):
     """a second table with the SAME content as `atm`, built through a different route"""
     import numpy as np
     b = B()
+    if object_ids and route in ('csr-sorted', 'csc', 'dense-array', 'explicit-zero', 'csr-reversed'):
+        atm = _IdsView(atm)
     nr, nc = len(atm.obs_ids), len(atm.samp_ids)
     D = cells_dense
     omd, smd = _cp(atm.obs_md), _cp(atm.samp_md)
@@ -93,7 +105,7 @@ def touch(t, how, atm):
 def h_equal(nr, nc, route, accs=ACCESSORS):
     md = pick(['none', 'both'], 'md')
     A, a = make_table(nr, nc, md=md, zeros=1, type_='OTU table')
-    Bt = alt_table(a, a.dense, route)
+    Bt = alt_table(a, a.dense, route, object_ids=(len(accs) == len(ACCESSORS) and flag('ids-as-object-array')))
     acc_a = pick(list(accs), 'accessor-on-A')
     acc_b = pick(list(accs), 'accessor-on-B')
     touch(A, acc_a, a)
@@ -160,10 +172,20 @@ def h_unequal(nr, nc, diff):
         i, j = zs[choice(len(zs), 'cell')]
         D[i][j] = var('w_other', nonzero=True)
     b.dense = D
-    if diff == 'obs-id':
-        b.obs_ids = [x + '0' if k == len(b.obs_ids) - 1 else x for k, x in enumerate(b.obs_ids)]
-    elif diff == 'samp-id':
-        b.samp_ids = ['X' + x[1:] if k == 0 else x for k, x in enumerate(b.samp_ids)]
+    if diff in ('obs-id', 'samp-id'):
+        ids = list(b.obs_ids if diff == 'obs-id' else b.samp_ids)
+        how = pick(['extend-longest', 'extend-last', 'replace-first-char'], 'id-change')
+        if how == 'extend-longest':
+            k = max(range(len(ids)), key=lambda q: len(ids[q]))
+            ids[k] = ids[k] + '0'
+        elif how == 'extend-last':
+            ids[-1] = ids[-1] + '.1'
+        else:
+            ids[0] = 'X' + ids[0][1:]
+        if diff == 'obs-id':
+            b.obs_ids = ids
+        else:
+            b.samp_ids = ids
     elif diff in ('obs-order', 'samp-order'):
         ax = 'observation' if diff.startswith('obs') else 'sample'
         n = len(b.ids(ax))
@@ -177,7 +199,7 @@ def h_unequal(nr, nc, diff):
     elif diff == 'type':
         b.type = 'Pathway table'
     route = pick(['csr-sorted', 'csc', 'dense-array', 'explicit-zero'], 'route')
-    Bt = alt_table(b, b.dense, route)
+    Bt = alt_table(b, b.dense, route, object_ids=flag('ids-as-object-array'))
     touch(A, pick(['none', 'nnz'], 'acc'), a)
     sig = dict(diff=diff, route=route)
     if (A == Bt) or (Bt == A):
